@@ -1,9 +1,11 @@
 use crate::Ctx;
 
+pub mod c12;
 pub mod c20;
 
 pub fn dispatch(prop: &str, ctx: &Ctx) -> ! {
     match prop {
+        "C12" => c12::run(ctx),
         "C20" => c20::run(ctx),
         _ => {
             eprintln!("unknown or unimplemented property {prop}");
